@@ -76,6 +76,37 @@ fn verif_native_command_total() {
             panic!("violation");
         }
     }
+    // every command name and abbreviation documented in help.txt (an oracle independent of the code's own tables), in two
+    // letter cases; argument counts: a surplus argument is refused
+    let documented = [
+        ("help", "Help"), ("h", "Help"), ("step", "StepOver"), ("s", "StepOver"), ("step into", "StepInto { count: 1 }"), ("si", "StepInto { count: 1 }"),
+        ("step out", "StepOut"), ("so", "StepOut"), ("continue", "Continue"), ("c", "Continue"), ("registers", "Registers"), ("r", "Registers"),
+        ("print r2", "Print { location: Register(R2) }"), ("p r2", "Print { location: Register(R2) }"),
+        ("move r2 1", "Move { location: Register(R2), value: 1 }"), ("m r2 1", "Move { location: Register(R2), value: 1 }"),
+        ("goto x3001", "Goto { location: Address(12289) }"), ("g x3001", "Goto { location: Address(12289) }"),
+        ("break add x3001", "BreakAdd { location: Address(12289) }"), ("ba x3001", "BreakAdd { location: Address(12289) }"),
+        ("break remove x3001", "BreakRemove { location: Address(12289) }"), ("br x3001", "BreakRemove { location: Address(12289) }"),
+        ("break list", "BreakList"), ("bl", "BreakList"), ("assembly ^2", "Assembly { location: PCOffset(2) }"), ("a ^2", "Assembly { location: PCOffset(2) }"),
+        ("reset", "Reset"), ("z", "Reset"), ("quit", "Quit"), ("q", "Quit"), ("exit", "Exit"), ("x", "Exit"),
+    ];
+    for (line, want) in documented {
+        for text in [line.to_string(), line.to_uppercase().replace("X3001", "x3001").replace("^2", "^2")] {
+            evaluated += 1;
+            let got = verif_catch(|| Command::try_from(leak(&text)).map(|c| describe(&c)).map_err(|_| ()));
+            if got != Ok(Ok(want.to_string())) {
+                verif_out(&format!("VERIF-COUNTEREXAMPLE name={} input={:?} detail=parses to {:?}, help.txt documents {}", name, text, got, want));
+                panic!("violation");
+            }
+        }
+    }
+    for line in ["registers x", "quit foo", "continue 3", "reset 1", "break list 2", "step out 1", "goto x3001 x3002", "move r1 2 3", "print r1 r2", "step into 1 2"] {
+        evaluated += 1;
+        let got = verif_catch(|| Command::try_from(leak(line)).map(|c| describe(&c)).map_err(|_| ()));
+        if got != Ok(Err(())) {
+            verif_out(&format!("VERIF-COUNTEREXAMPLE name={} input={:?} detail=parses to {:?}; a surplus argument must be refused", name, line, got));
+            panic!("violation");
+        }
+    }
     // a repeat count that is not positive means 1 (the parser's documented contract: "non-positive values will be converted to
     // 1") or is refused — never a third reading such as the two's complement of the number
     for line in ["step into -1", "si -1", "si #-5", "si -32768", "si -x1", "step into -0", "si x-7FFF"] {
